@@ -97,6 +97,9 @@ pub struct SampleStreamSource {
     queue: Arc<SpscRing<MediaSample>>,
     notify: Arc<Notify>,
     pop_lock: Arc<SyncMutex<()>>,
+    /// Serializes producers: the ring is single-producer, but this handle is
+    /// `Clone + Sync`, so concurrent `send`s must not reach `push` together.
+    push_lock: Arc<SyncMutex<()>>,
     source_closed: Arc<AtomicBool>,
     active_senders: Arc<std::sync::atomic::AtomicUsize>,
     drop_count: Arc<AtomicU64>,
@@ -145,6 +148,7 @@ pub fn sample_track(
         queue,
         notify,
         pop_lock,
+        push_lock: Arc::new(SyncMutex::new(())),
         source_closed,
         active_senders,
         drop_count,
@@ -162,6 +166,7 @@ impl Clone for SampleStreamSource {
             queue: self.queue.clone(),
             notify: self.notify.clone(),
             pop_lock: self.pop_lock.clone(),
+            push_lock: self.push_lock.clone(),
             source_closed: self.source_closed.clone(),
             active_senders: self.active_senders.clone(),
             drop_count: self.drop_count.clone(),
@@ -175,6 +180,7 @@ impl SampleStreamSource {
             return Err(MediaError::Closed);
         }
 
+        let _push_guard = self.push_lock.lock();
         let sample = match self.queue.push(sample) {
             Ok(()) => {
                 #[cfg(rustrtc_verif)]
@@ -264,6 +270,7 @@ impl SampleStreamSource {
             return Err(MediaError::Closed);
         }
 
+        let _push_guard = self.push_lock.lock();
         self.queue
             .push(sample)
             .map_err(|_| MediaError::WouldBlock)?;
